@@ -874,8 +874,17 @@ func execOp(r *core.Run, t *taskState, o hop) (live any, label string, panicked 
 			if o.smpp {
 				pr = protocol.SMPP
 				dcs = []datacoding.ProtocolDataCoding{datacoding.SMPP_CODING_GSM7_UNPACKED, datacoding.SMPP_CODING_GSM7_PACKED, datacoding.SMPP_CODING_UCS2, datacoding.SMPP_CODING_Latin1}
+				if int(o.ref)%3 != 0 {
+					dcs = append(dcs, datacoding.SMPP_CODING_ASCII) // more than four candidates
+				}
+				if int(o.ref)%4 == 1 {
+					dcs = append(dcs, datacoding.SMPPDataCoding(4)) // and a number the library does not know
+				}
 			} else {
 				dcs = []datacoding.ProtocolDataCoding{datacoding.CMPP_CODING_ASCII, datacoding.CMPP_CODING_UCS2, datacoding.CMPP_CODING_GBK}
+				if int(o.ref)%3 != 0 {
+					dcs = append(dcs, datacoding.CMPP_CODING_UCS2_NO_SIGN, datacoding.CMPPDataCoding(4))
+				}
 			}
 			if o.coding >= 3 {
 				// the two paths on which Build writes a log line: no candidate can encode and UCS-2 was not offered
@@ -1099,10 +1108,22 @@ func runHistories(r *core.Run, prop string) {
 					failed = true
 					return
 				}
-				// (1) earlier results still intact (recent ones every step, all of them at the end)
+				// (1) earlier results still intact (recent ones every step, all of them at the end); a retained PDU is
+				// also looked at the way an application looks at it - formatted, asked for its command and sequence
+				// number (not encoded: the CMPP 2.0 submit encoder's documented 0/0 -> 1/1 default writes to its receiver) -
+				// and looking must not change it
 				lo := len(t.res) - 6
 				if lo < 0 {
 					lo = 0
+				}
+				for j := lo; j < len(t.res); j++ {
+					if pdu, ok := t.res[j].live.(protocol.PDU); ok {
+						r.Call(t.res[j].label+".String", func() {
+							_ = pdu.String()
+							_ = pdu.GetCommand()
+							_ = pdu.GetSequenceID()
+						})
+					}
 				}
 				for j := lo; j < len(t.res); j++ {
 					if ok, what := sameValue(t.res[j].snap, t.res[j].live); !ok {
